@@ -40,6 +40,10 @@ Vals(t) ==
     [] t = "u-eu"       -> {"UENUM", "UUINT"}       \* union { enumeration; uint32 }
     [] t = "u-bu"       -> {"UBIN", "UU16"}         \* union { uint16; binary }
     [] t = "u-bs"       -> {"UBOOL", "USTRBOOLISH"}  \* union { boolean; string }: a string that merely looks like a boolean
+    \* union { uint64; int64 }: a non-negative number belongs to the FIRST member (declaration order, not
+    \* the numeric order of the type kinds), a negative one only fits the second
+    [] t = "u-ul"       -> {"UU64", "UI64NEG"}
+    [] t = "u-lb"       -> {"UI64", "UBOOL"}        \* union { int64; boolean }
     [] t = "binary"     -> {"BEMPTY", "BBYTES"}
     [] t = "empty"      -> {"SET"}
 
@@ -49,10 +53,13 @@ Vals(t) ==
 JKinds == {"num", "str", "bool", "null", "arrnull", "arrempty", "arrnum", "arrnullnull", "arrnullnum", "obj"}
 
 \* classes of JSON numbers / strings offered to every type
-NumX == {"MIN", "MIN1", "NEG1", "ZERO", "ONE", "MID", "MAX1", "MAX", "BIG53", "BELOW", "ABOVE", "FRAC", "HUGE"}
+\* NEGFRAC: a negative non-integral number above -1 (-0.5), so that truncation would give 0
+NumX == {"MIN", "MIN1", "NEG1", "ZERO", "ONE", "MID", "MAX1", "MAX", "BIG53", "BELOW", "ABOVE", "FRAC", "NEGFRAC", "HUGE"}
 StrX == {"C:" \o v : v \in {"MIN", "MIN1", "NEG1", "ZERO", "ONE", "MID", "MAX1", "MAX", "BIG53", "DNEG", "DZERO", "DSMALL", "DINT", "DBIG"}}
         \cup {"PLUS", "PADDED", "HEX", "EMPTY", "EXP", "FRACSTR", "EXCESSFRAC", "ALPHA", "ABOVE", "BELOW",
-              "NAME1", "NAME2", "MODNAME1", "UNKNOWNNAME", "B64", "B64EMPTY", "BADB64", "LOWER", "TRUESTR"}
+              "NAME1", "NAME2", "MODNAME1", "UNKNOWNNAME", "B64", "B64EMPTY", "BADB64", "LOWER", "TRUESTR",
+              \* COLONS: a defined name behind TWO prefixes ("x:y:NAME"): only one module prefix may be stripped
+              "COLONS"}
 
 JInputs == {[k |-> "num", x |-> x] : x \in NumX} \cup {[k |-> "str", x |-> x] : x \in StrX}
            \cup {[k |-> "bool", x |-> b] : b \in {"TRUE", "FALSE"}}
@@ -87,7 +94,7 @@ Dec(t, in) ==
     [] in.k \in {"arrnull", "arrempty", "arrnum", "arrnullnull", "arrnullnum", "obj"} -> Reject   \* wrong JSON kind for a scalar leaf
     [] t \in Ints /\ in.k = "num" ->
          IF in.x \in Vals(t) THEN Denotes(in.x)                   \* also for 64-bit types: exact or error
-         ELSE IF in.x \in {"BELOW", "ABOVE", "FRAC", "HUGE"} THEN Reject
+         ELSE IF in.x \in {"BELOW", "ABOVE", "FRAC", "NEGFRAC", "HUGE"} THEN Reject
          ELSE IF in.x \in {"MIN", "MIN1", "NEG1"} /\ t \in Unsigned THEN Reject
          ELSE IF in.x = "BIG53" /\ ~Is64(t) THEN (IF t \in {"int8", "int16", "int32", "uint8", "uint16", "uint32"} THEN Reject ELSE Unspec)
          ELSE IF in.x = "MID" /\ t \in Signed THEN Reject           \* 2^(w-1) is MAX+1 of the signed type
@@ -95,7 +102,7 @@ Dec(t, in) ==
     [] t \in Ints /\ in.k = "str" ->
          IF ~Is64(t) THEN Reject                                   \* 8/16/32-bit integers are JSON numbers
          ELSE IF CanonOf(in.x) \in Vals(t) THEN Denotes(CanonOf(in.x))
-         ELSE IF in.x \in {"EMPTY", "EXP", "FRACSTR", "EXCESSFRAC", "ALPHA", "ABOVE", "BELOW", "PADDED", "NAME1", "NAME2", "MODNAME1",
+         ELSE IF in.x \in {"EMPTY", "EXP", "FRACSTR", "EXCESSFRAC", "ALPHA", "ABOVE", "BELOW", "PADDED", "NAME1", "NAME2", "MODNAME1", "COLONS",
                            "UNKNOWNNAME", "B64", "BADB64", "LOWER", "TRUESTR", "C:DNEG", "C:DSMALL", "C:DBIG"} THEN Reject
          ELSE IF in.x \in {"C:MIN", "C:MIN1", "C:NEG1"} /\ t = "uint64" THEN Reject
          ELSE Unspec                                                \* "+5", hexadecimal, ...
@@ -103,7 +110,7 @@ Dec(t, in) ==
     [] t = "dec2" /\ in.k = "str" ->
          IF CanonOf(in.x) \in Vals(t) THEN Denotes(CanonOf(in.x))
          ELSE IF in.x \in {"C:ZERO", "C:ONE", "C:NEG1"} THEN Unspec  \* integer lexical form of a decimal
-         ELSE IF in.x \in {"EMPTY", "ALPHA", "PADDED", "NAME1", "NAME2", "MODNAME1", "UNKNOWNNAME", "BADB64", "LOWER", "TRUESTR", "HEX"} THEN Reject
+         ELSE IF in.x \in {"EMPTY", "ALPHA", "PADDED", "NAME1", "NAME2", "MODNAME1", "COLONS", "UNKNOWNNAME", "BADB64", "LOWER", "TRUESTR", "HEX"} THEN Reject
          ELSE Unspec
     [] t = "dec2" /\ in.k = "num" -> Unspec                         \* RFC 7951 wants a string; leniency not decided
     [] t = "dec2" -> Reject
@@ -121,14 +128,14 @@ Dec(t, in) ==
                        ELSE IF in.x = "B64" THEN Denotes("BBYTES") ELSE IF in.x \in {"B64EMPTY", "EMPTY"} THEN Denotes("BEMPTY")
                        ELSE IF in.x = "BADB64" THEN Reject ELSE Unspec      \* other strings may or may not be base64
     [] t = "u-is" -> IF in.k = "num" THEN (IF in.x \in {"MIN", "MIN1", "NEG1", "ZERO", "ONE", "MID", "MAX1", "MAX"} THEN Unspec
-                                           ELSE IF in.x \in {"FRAC", "HUGE"} THEN Reject ELSE Unspec)
+                                           ELSE IF in.x \in {"FRAC", "NEGFRAC", "HUGE"} THEN Reject ELSE Unspec)
                      ELSE IF in.k = "str" THEN (IF in.x = "LOWER" THEN Denotes("USTR") ELSE Unspec)
                      ELSE Reject
-    [] t = "u-eu" -> IF in.k = "str" THEN (IF in.x = "NAME1" THEN Denotes("UENUM") ELSE Unspec)
-                     ELSE IF in.k = "num" THEN (IF in.x = "ONE" THEN Denotes("UUINT") ELSE IF in.x \in {"FRAC", "HUGE", "BELOW"} THEN Reject ELSE Unspec)
+    [] t = "u-eu" -> IF in.k = "str" THEN (IF in.x = "NAME1" THEN Denotes("UENUM") ELSE IF in.x \in {"COLONS", "UNKNOWNNAME"} THEN Reject ELSE Unspec)
+                     ELSE IF in.k = "num" THEN (IF in.x = "ONE" THEN Denotes("UUINT") ELSE IF in.x \in {"FRAC", "NEGFRAC", "HUGE", "BELOW"} THEN Reject ELSE Unspec)
                      ELSE Reject
     [] t = "u-bu" -> IF in.k = "str" THEN (IF in.x = "B64" THEN Denotes("UBIN") ELSE Unspec)
-                     ELSE IF in.k = "num" THEN (IF in.x = "ONE" THEN Denotes("UU16") ELSE IF in.x \in {"FRAC", "HUGE", "BELOW"} THEN Reject ELSE Unspec)
+                     ELSE IF in.k = "num" THEN (IF in.x = "ONE" THEN Denotes("UU16") ELSE IF in.x \in {"FRAC", "NEGFRAC", "HUGE", "BELOW"} THEN Reject ELSE Unspec)
                      ELSE Reject
 
 \* u-is: the number NEG1 is the canonical int32 member
@@ -211,7 +218,7 @@ DecTV(t, in) == DecTVPlain(t, in)
 (* gNMI path key strings (C16): every key type, the value classes used as   *)
 (* keys and the class of string the key is written as.                      *)
 
-KeyTypes == Ints \cup {"dec2", "string", "boolean", "enum", "idref", "u-is", "u-eu", "u-bs"}
+KeyTypes == Ints \cup {"dec2", "string", "boolean", "enum", "idref", "u-is", "u-eu", "u-bs", "u-ul", "u-lb"}
 
 KeyStrClass(t, v) ==
   CASE t \in Ints     -> "DECIMAL-DIGITS"       \* optional "-", decimal digits
@@ -222,6 +229,8 @@ KeyStrClass(t, v) ==
     [] t = "u-is"     -> IF v = "UINT" THEN "DECIMAL-DIGITS" ELSE "VERBATIM"
     [] t = "u-eu"     -> IF v = "UENUM" THEN "NAME" ELSE "DECIMAL-DIGITS"
     [] t = "u-bs"     -> IF v = "UBOOL" THEN "TRUE-FALSE" ELSE "VERBATIM"
+    [] t = "u-ul"     -> "DECIMAL-DIGITS"
+    [] t = "u-lb"     -> IF v = "UBOOL" THEN "TRUE-FALSE" ELSE "DECIMAL-DIGITS"
 
 ----------------------------------------------------------------------------
 VARIABLE c
